@@ -46,12 +46,15 @@ func init() {
 				Run: func(c *core.Ctx, idx int) { cdcnmon.RunC11Race(c) }},
 			{Name: "derivations/reused-notation", Count: core.FixedCount(5000, 150000), BlockIsViolation: true,
 				Run: func(c *core.Ctx, idx int) { cdcnmon.RunReusedNotation(c, "C11") }},
-			{Name: "m1/scanner-parser-schedules", Count: core.FixedCount(400, 8000), CPULimit: 600,
+			{Name: "m1/scanner-parser-schedules", Pool: "m1", Count: core.FixedCount(400, 8000), CPULimit: 600,
 				Run: func(c *core.Ctx, idx int) {
 					if conc.M1Disabled(c) {
 						return
 					}
 					cdcnmon.RunC11M1(c, false, ExploreParse)
+					for k, n := range conc.AbandonedParses {
+						c.CoverN(k, n)
+					}
 				}},
 			{Name: "literals/unrepresentable", Count: core.FixedCount(cdcnmon.C11RejectCases(), cdcnmon.C11RejectCases()), Exhaustive: true, Run: cdcnmon.RunC11Reject, BlockIsViolation: true},
 		},
